@@ -24,8 +24,10 @@ struct Arg {
 
 struct Field {
     char align = 0;          // 0, '<', '>'
-    int padkind = 0;         // 0 none, 1 "_c", 2 "0" flag
+    int padkind = 0;         // 0 none, 1 "_c", 2 "0" flag  - the pad specification in force (the last one written)
     char padc = ' ';
+    int overridden = 0;      // an earlier pad specification in the same field that the one above replaces: 0 none, 1 "_c", 2 "0" flag
+    char overridden_c = '#';
     int width = 0;           // 0 = none
     int precision = -1;
     bool alt = false;        // '#'
@@ -50,6 +52,8 @@ inline S field_text(const Field &f)
         switch (t) {
         case 0: if (f.align) { out += f.align; last_was_number = false; } break;
         case 1:
+            if (f.padkind != 0 && f.overridden == 1) { out += '_'; out += f.overridden_c; last_was_number = false; }
+            else if (f.padkind != 0 && f.overridden == 2) { sep(); out += '0'; last_was_number = false; }
             if (f.padkind == 1) { out += '_'; out += f.padc; last_was_number = false; }
             else if (f.padkind == 2) { sep(); out += '0'; }
             break;
@@ -159,6 +163,8 @@ inline Field random_field(vrt::Rng &r, bool allow_char_class_padding)
     case 1: f.padkind = 2; break;
     default: break;
     }
+    // two pad specifications in one field: the later one is in force ("in every field order")
+    if (f.padkind != 0 && r.chance(1, 4)) { f.overridden = static_cast<int>(1 + r.below(2)); static const char oc[] = {'#', '0', '!', ' '}; f.overridden_c = r.pick(oc); }
     if (r.chance(2, 3)) f.width = static_cast<int>(r.chance(1, 8) ? 1 + r.below(300) : 1 + r.below(24));
     if (r.chance(1, 4)) f.precision = static_cast<int>(r.below(12));
     f.alt = r.chance(1, 3);
